@@ -757,6 +757,14 @@ static void sc_joinintr(std::uint64_t)
         {
             s->intr.store(1);
         }
+        catch (pika::exception const& e)
+        {
+            // the interruption of a task suspended in join must surface as thread_interrupted (interruption ends the
+            // thread quietly), not as an error of the blocking call
+            s->intr.store(2);
+            monitor(std::string("joinintr: a join interrupted while suspended threw pika::exception instead of thread_interrupted: ") +
+                std::to_string(int(e.get_error())));
+        }
         s->stage.store(2);
         try
         {
